@@ -1,0 +1,48 @@
+//go:build verif
+
+package server
+
+import (
+	"github.com/openconfig/gribigo/rib"
+
+	spb "github.com/openconfig/gribi/v1/proto/service"
+)
+
+// This file is compiled only with the "verif" build tag. It adds read-only
+// snapshots of internal server state for external verification harnesses and
+// changes no behaviour.
+
+// VerifElection returns the current election ID and the ID of the session
+// that is currently considered primary.
+func (s *Server) VerifElection() (*spb.Uint128, string) {
+	s.elecMu.RLock()
+	defer s.elecMu.RUnlock()
+	return s.curElecID, s.curMaster
+}
+
+// VerifSession is a snapshot of one entry of the session table.
+type VerifSession struct {
+	SetParams    bool
+	Persist      bool
+	ExpectElecID bool
+	FIBAck       bool
+	LastElecID   *spb.Uint128
+}
+
+// VerifSessions returns a snapshot of the session table.
+func (s *Server) VerifSessions() map[string]VerifSession {
+	s.csMu.RLock()
+	defer s.csMu.RUnlock()
+	out := map[string]VerifSession{}
+	for id, c := range s.cs {
+		v := VerifSession{SetParams: c.setParams, LastElecID: c.lastElecID}
+		if c.params != nil {
+			v.Persist, v.ExpectElecID, v.FIBAck = c.params.Persist, c.params.ExpectElecID, c.params.FIBAck
+		}
+		out[id] = v
+	}
+	return out
+}
+
+// VerifRIB returns the server's RIB.
+func (s *Server) VerifRIB() *rib.RIB { return s.masterRIB }
